@@ -48,6 +48,7 @@ def run(c, replay):
     progs, runs = C.campaign(c, ctx, r, 8 if c.tier == "quick" else 100, 0, c.tier, want_stats=True, extra_cfgs=[(2, 1, 0)])
     progs2, runs2 = C.campaign(c, ctx, r, 3 if c.tier == "quick" else 30, 0, c.tier, variants=("pred", "stop"), ranks_list=(2, 3), jobs=3)
     runs3 = C.lp_campaign(c, ctx, r, 8 if c.tier == "quick" else 120, 0)
+    c.cov.update(C.worker_report(c, runs3))
     for run_ in runs + runs2 + runs3:
         nrun += 1
         if run_["res"].sanitizer:
